@@ -326,6 +326,11 @@ impl<S: Read + Write> Client<S> {
         self.x224.shutdown()
     }
 
+    /// Is a part of the next PDU already buffered by the lower layers ?
+    pub fn has_pending_data(&self) -> bool {
+        self.x224.has_pending_data()
+    }
+
     /// This function check if the client
     /// version protocol choose is 5+
     pub fn is_rdp_version_5_plus(&self) -> bool {
